@@ -911,6 +911,11 @@ func (vm *VirtualMachine) Call(
 		}
 		vm.stop()
 	}()
+	// Like Run and RunCode, a call from the host starts with an empty
+	// operand stack in the outermost frame: an earlier invocation that ended
+	// with a panic (a stack or frame overflow) has left both where they were
+	vm.clearStack()
+	vm.fp = 0
 	result, err = vm.callFunction(vm.initContext(ctx), fn, args)
 	if err != nil {
 		return nil, err
